@@ -410,6 +410,50 @@ def ampm_expected(desig, h):
     return h if h == 12 else h + 12
 
 
+# The one cell where the project itself defines something else than clock arithmetic: a range that ENDS at '12am' is read
+# as ending at 12:00 on every platform (.NET tests `endHour > HalfDayHourCount`), and the Specs pin it:
+# DateTimeModel.json "book me a meeting room tomorrow from 10am-12am tomorrow" -> (2018-09-01T10,2018-09-01T12,PT2H).
+# While such a case exists in the Specs the cell accepts both readings (12 as pinned, 0/24 as the clock says).
+PINNED_END_12AM = ('end', 'am', 12)
+
+
+def specs_pin_end_12am():
+    """(True, 'file: input') when a Specs case with a range ending at 12am expects an end of T12;
+    (False, why) when the Specs are readable and no such case exists; (None, why) when the tree carries no Specs"""
+    import glob
+    import json
+    import os
+    import re
+    from ..core import REPO
+    base = os.path.join(REPO, 'Specs', 'DateTime')
+    if not os.path.isdir(base):
+        return None, 'no Specs directory under %s' % REPO
+    pat = re.compile(r'(-|\bto|\band|\btill?|\buntil)\s*12\s*(:00\s*)?a\.?m')
+    end12 = re.compile(r'^\([^,]*,[^,]*T12(:00)?(:00)?,')
+    seen = 0
+    for f in sorted(glob.glob(os.path.join(base, '*', '*.json'))):
+        try:
+            cases = json.load(open(f, encoding='utf-8-sig'))
+        except (OSError, ValueError):
+            continue
+        for c in cases if isinstance(cases, list) else []:
+            text = str(c.get('Input', '')).lower()
+            if not pat.search(text):
+                continue
+            seen += 1
+            for r in c.get('Results') or []:
+                vals = []
+                res = r.get('Resolution')
+                if isinstance(res, dict):
+                    vals = [v.get('timex') for v in res.get('values') or [] if isinstance(v, dict)]
+                val = r.get('Value')
+                if isinstance(val, dict):
+                    vals.append(val.get('Timex'))
+                if any(isinstance(t, str) and end12.match(t) for t in vals):
+                    return True, '%s: %r' % (os.path.relpath(f, REPO), c.get('Input'))
+    return False, '%d Specs case(s) end a range at 12am, none expects T12' % seen
+
+
 _AMPM_CONTROL = '''
 class P:
     def parse_specific_time(self, source, reference):
@@ -737,13 +781,30 @@ def run_base(chk, idx, consts):
         raise AnalysisError('anchor vanished: BaseTimePeriodParser.parse_specific_time')
     chk.consulted(tp.mod.path)
     tabs, bl = ampm_tabulate(idx, tp, pst)
+    pinned, pin_why = specs_pin_end_12am()
+    if pinned is None:
+        chk.assume("the Specs still pin a range ending at '12am' to T12 (this tree carries no Specs to confirm it: %s)" % pin_why)
+    tolerant = pinned is not False
+
+    def cell_ok(which, desig, h, v):
+        if v == ampm_expected(desig, h):
+            return True
+        return tolerant and (which, desig, h) == PINNED_END_12AM and v in (12, 0, 24)
+
+    got_pinned = tabs[('end', 'am')][12]
+    if tolerant and got_pinned == 12:
+        chk.observe("C10.ampm: the cell [end point, am, 12] evaluates to 12:00 - accepted because the Specs pin it (%s expects the range "
+                    "to end at T12; .NET tests endHour > 12 too); every other cell is exact (begin point 12am -> 00:00)"
+                    % (pin_why if pinned else 'DateTimeModel.json "...from 10am-12am tomorrow"'))
+    elif not tolerant:
+        chk.observe('C10.ampm: no Specs case pins a range ending at 12am to T12 any more (%s): the cell [end point, am, 12] is exact again' % pin_why)
     for (which, desig), tab in sorted(tabs.items()):
         wrong = ['%d%s -> %02d:00 (expected %02d:00)' % (h, desig, v, ampm_expected(desig, h)) for h, v in sorted(tab.items())
-                 if v != ampm_expected(desig, h)]
+                 if not cell_ok(which, desig, h, v)]
         chk.judge(not wrong, 'C10.ampm', tp.mod.path, 'BaseTimePeriodParser.parse_specific_time[%s point, %s]' % (which, desig),
                   'hours 1..12 map correctly' if not wrong else '; '.join(wrong),
                   "both endpoints carry am/pm: the %s point is adjusted wrongly: %s%s" % (
-                      which, '; '.join(wrong), " (e.g. 'from 9pm to 12am' / 'from 12am to 3am')" if desig == 'am' else ''), bl)
+                      which, '; '.join(wrong), " (e.g. 'from 12am to 3am')" if desig == 'am' else ''), bl)
     cfn = _FakeCls(ast.parse(_AMPM_CONTROL).body[0])
     ctabs, _ = ampm_tabulate(idx, tp, cfn.methods['parse_specific_time'])
     chk.control('C10.ampm', ctabs[('begin', 'am')][12] != 0)
